@@ -1278,6 +1278,8 @@ func (p *constructPlan) Execute(ctx context.Context) (*table.Table, error) {
 	// The buffered channel has capacity to accommodate twice the amount of triples stored in a single call.
 	tripChan := make(chan *triple.Triple, 2*p.bulkSize)
 	done := make(chan bool)
+	// Errors of the bulk writes; only read after done has been received from.
+	var updateErrs []string
 
 	go func() {
 		var ts []*triple.Triple
@@ -1306,12 +1308,16 @@ func (p *constructPlan) Execute(ctx context.Context) (*table.Table, error) {
 		for elem := range tripChan {
 			ts = append(ts, elem)
 			if len(ts) >= p.bulkSize {
-				update(ctx, ts, p.stm.OutputGraphNames(), p.store, updateFunc)
+				if err := update(ctx, ts, p.stm.OutputGraphNames(), p.store, updateFunc); err != nil {
+					updateErrs = append(updateErrs, err.Error())
+				}
 				ts = []*triple.Triple{}
 			}
 		}
 		if len(ts) > 0 {
-			update(ctx, ts, p.stm.OutputGraphNames(), p.store, updateFunc)
+			if err := update(ctx, ts, p.stm.OutputGraphNames(), p.store, updateFunc); err != nil {
+				updateErrs = append(updateErrs, err.Error())
+			}
 		}
 		done <- true
 	}()
@@ -1357,6 +1363,9 @@ func (p *constructPlan) Execute(ctx context.Context) (*table.Table, error) {
 	close(tripChan)
 	// Wait until all triples are added to the store.
 	<-done
+	if len(updateErrs) > 0 {
+		return nil, errors.New(strings.Join(updateErrs, "; "))
+	}
 	return tbl, nil
 }
 
